@@ -660,7 +660,12 @@ func handleQueryCustom(app *BaseApp, path []string, req abci.RequestQuery) (res 
 	// cache wrap the commit-multistore for safety
 	ctx := sdk.NewContext(
 		newMS, app.checkState.ctx.BlockHeader(), true, app.logger,
-	).WithBlockStore(app.checkState.ctx.BlockStore()).WithAppVersion(app.appVersion)
+	).WithBlockStore(app.checkState.ctx.BlockStore()).WithAppVersion(app.appVersion).
+		// The store is the state at req.Height: make the context say so, and mark it as a
+		// "previous" context so that what a query reads never lands in the node-local object
+		// caches that block execution reads (ApplicationCache is not keyed by height; the
+		// validators-by-chain cache is keyed by the context's height).
+		WithBlockHeight(req.Height).SetPrevCtx(true)
 
 	// Passes the rest of the path as an argument to the querier.
 	//
